@@ -483,6 +483,21 @@ class Gen:
             return c
         return '%s.%s' % (q, c)
 
+    def bound(self, ops):
+        """a BETWEEN bound: mostly a constant, sometimes a column of any operand (other table, model), an
+        unqualified column or an expression"""
+        r = self.rng
+        x = r.random()
+        if x < 0.6:
+            return self.const()
+        if x < 0.8:
+            return self.qcol(r.choice(ops))
+        if x < 0.87:
+            return r.choice(TCOLS + MCOLS)
+        if x < 0.94:
+            return '%s + %s' % (self.qcol(r.choice(ops)), self.const())
+        return 'abs(%s)' % self.qcol(r.choice(ops))
+
     def atom(self, ops, depth=0):
         r = self.rng
         o = r.choice(ops)
@@ -499,7 +514,7 @@ class Gen:
         if x < 0.67:
             return '%s %s (%s, %s)' % (col, r.choice(['in', 'not in']), self.const(), self.const())
         if x < 0.71:
-            return '%s between %s and %s' % (col, self.const(), self.const())
+            return '%s between %s and %s' % (col, self.bound(ops), self.bound(ops))
         if x < 0.75:
             return '%s = %s' % (col, self.qcol(r.choice(ops)))
         if x < 0.79:
@@ -641,6 +656,10 @@ SEEDS = [
     "select * from int1.t1 join mindsdb.pred where pred.mc1 = 1 and t1.tc1 = 2 and int1.t1.tc2 = 3 and mindsdb.pred.mc2 = 4 and e = 5",
     "select * from int1.t1 t join mindsdb.pred m join int2.t2 s on s.tc1 = m.mc1 where s.tc2 = 3 and m.mc1 = 1 and m.y = 2",
     "select * from int1.t1 t join mindsdb.pred.3 m where m.mc1 = (select max(x) from int2.t9) and t.tc1 in (select x from int2.t9)",
+    "select * from int1.t1 t join int2.t2 s on t.id = s.id join mindsdb.pred m where t.tc1 between 1 and s.tc2 and s.tc1 between t.tc2 and 5",
+    "select * from int1.t1 t join mindsdb.pred m where t.tc1 between 1 and m.mc1 and t.tc2 between m.mc2 and 3 and m.mc1 between 1 and t.tc1",
+    "select * from int1.t1 t join mindsdb.pred m where t.tc1 between 1 and tc2 and t.tc2 between t.id + 1 and abs(t.id) and t.id between 1 and 2",
+    "select * from (select * from int1.t1) s join int2.t2 t join mindsdb.pred m where s.tc1 between 1 and t.tc2 and t.tc1 between s.id and m.mc1",
 ]
 
 
@@ -903,6 +922,19 @@ def oracle(res):
                          'ON conjunct %s of a %s is pushed into the fetch of operand %d' % (show_e(on_hit), ops[t].jtype, t))
                     continue
         if ok:
+            continue
+        other = None
+        for c in tcs:
+            if strip_col(c) == f and c[0] in 'BW':
+                first = c[1] if c[0] == 'W' else (c[2] if c[2][0] == 'C' else c[3])
+                if first[0] == 'C' and first[1] and resolve(ops, first[1]) == t:
+                    extra = [x for x in cols_of(c) if x is not first and not (x[1] and resolve(ops, x[1]) == t)]
+                    if extra or any(a[0] not in 'CKP' for a in c[1:] if isinstance(a, tuple)):
+                        other = (c, extra)
+        if other is not None:
+            fail('fetch-filter-mentions-other-table',
+                 'pushed filter %s of operand %d comes from the conjunct %s, which is not `column op constant`: it mentions %s' % (
+                     show_e(f), t, show_e(other[0]), [show_e(x) for x in other[1]] or 'an expression'))
             continue
         org = find_origin(W, lambda n: strip_col(n) == f and (simple_cmp(ops, n) or (None,))[0] == t)
         src = 'where'
